@@ -163,5 +163,5 @@ MANIFEST = {
             "remote-to-local and responses local-to-remote, the outbound server the opposite; on the regenerated schema the walker changes only descriptor-tagged positions. Tied to the code by the real "
             "NewStaticBiMap vs the extracted model, by whole-message comparison of the real walkers with the descriptor-driven reference (plus round trip), and by end-to-end calls through a running "
             "ClusterConnection from both sides including chains, the bypass header and rejected configurations.",
-    "note": "Blob re-encoding is compared on decoded contents (semantically identical, not byte-identical).",
+    "note": "The direction rules are also observed through a real cluster connection for search-attribute keys in responses (inbound and outbound server, chain mappings). Blob re-encoding is compared on decoded contents (semantically identical, not byte-identical).",
 }
